@@ -26,7 +26,9 @@
 
    Scope of the model (what the harness generates): all cell values are ints; formula columns read one plain data
    column of the same row; the trigger column's own schema and configuration do not change during the history;
-   every formula column has been evaluated at least once before the first schema event (the table had a row). *)
+   every formula column has its learned dependency edges at the start of a bundle, i.e. the table was not empty
+   at the end of the last bundle that cleared them (an ALL_ROWS-dirty formula column re-learns its edges only by
+   being evaluated on some row; the model does not track "has no edges because there was no row"). *)
 From Coq Require Import ZArith List Bool.
 Import ListNotations.
 Open Scope Z_scope.
